@@ -170,7 +170,10 @@ def stepJ (s : DSt) (j : Json) : DSt × Json :=
     let root := natF j "root"
     let cons := (arrF j "constructed").map nat
     let r := instanceWalk s.sg.g cons root
-    (s, Json.mkObj [("log", logJ (instanceLog s.sg.g cons root)), ("store", natsJ r.store), ("pre", natsJ r.preTasks)])
+    let attrs := (instanceAttrs s.sg.g cons root).map (fun (p : Nat × List (List Nat × Val)) =>
+      Json.arr #[(p.1 : Json), Json.arr (p.2.map (fun f => Json.arr #[Json.str (hexOf f.1), valJ f.2])).toArray])
+    (s, Json.mkObj [("log", logJ (instanceLog s.sg.g cons root)), ("store", natsJ r.store), ("pre", natsJ r.preTasks),
+                    ("attrs", Json.arr attrs.toArray)])
   | "loadinst" =>
     let defs := serialize fl s.lib s.sg [natF j "root"]
     (s, Json.mkObj [("log", logJ (if boolF j "body" then runLog defs else loadInstanceLog defs))])
